@@ -104,6 +104,16 @@ class GuardRule(S.SeqRule):
         return callee.name in ("xcm_tp_socket_set_local_addr",) or (callee.static and "set_local_addr" in callee.name)
 
     def on_branch(self, fn, st, blk, cond, label):
+        if isinstance(label, tuple) and label[0] == "case":
+            # switch (conn.state) { case conn_state_initialized: ... }
+            fl = fn.fields_of(cond)
+            if fl and fl[-1] == "state" and label[2] == "conn_state_initialized":
+                return st.user | {"init"}
+            if fl and fl[-1] == "state" and label[2] == "conn_state_resolving":
+                return st.user | {"resolving"}
+            if fl and fl[-1] == "type" and label[2] == "xcm_socket_type_server":
+                return st.user | {"notconn"}
+            return None
         if label not in ("T", "F"):
             return None
         l, op, r = C.cond_atom(fn, cond, label == "T")
